@@ -74,6 +74,7 @@ fn main() {
         let c: Value = serde_json::from_str(line).expect("case json");
         let id = c["case"].clone();
         w.emit(&json!({"ev": "Begin", "case": id, "n": n}));
+        drv_common::apply_pre_copy(&c);
         let dir = c["dir"].as_str().unwrap().to_string();
         let d2 = dir.clone();
         let r = run_caught(move || TranslationsInfos::parse_at_dir(PathBuf::from(d2)));
